@@ -189,6 +189,8 @@ def one(ctx, case, data, tmpdir):
 def enumerate_stops(ctx, conf, tmpdir):
     rng = ctx.rng("streams")
     for si in range(conf["streams"]):
+        if si and ctx.phase_over(0.5):
+            break  # a stream that was begun is finished (every stop point); the classes after this one keep their share
         base = P.random_pipeline_case(rng, max_windows=conf["max_blocks"], want_saver=(si % 2 == 0))
         base["v"] = base["v"][: conf["max_blocks"]]
         if not base["v"]:
@@ -243,7 +245,7 @@ def systematic(ctx, conf, tmpdir):
                 P.clean_dir(tmpdir)
                 return P.run_pipeline(case, data, tmpdir, strategy=strat)
 
-            for devs, strat, res in SY.enumerate_schedules(run_fn, conf["systematic_deviations"], ctx.out_of_time):
+            for devs, strat, res in SY.enumerate_schedules(run_fn, conf["systematic_deviations"], (lambda: ctx.phase_over(0.3))):
                 s = res.sched
                 at = res.holder.get("reads_started_at_stop", -1)
                 ctx.case(stable_hash(["sys", case["v"], observers, saver, k, s.decisions]), 0 <= at <= nblocks)
@@ -475,6 +477,18 @@ def run_shard(ctx):
             unencodable_stop(ctx, tmpdir)
         systematic(ctx, conf, tmpdir)
         enumerate_stops(ctx, conf, tmpdir)
+        rng = ctx.rng("lines")
+        for i in range(conf["line_runs"]):
+            case = P.random_pipeline_case(rng, max_windows=14 if i % 4 == 0 else 8, want_stop=True, line_mode=(True, "instr", "all", "instr")[i % 4])
+            if "rec" not in case["observers"]:
+                case["observers"] = list(case["observers"]) + ["rec"]
+                case["observer_timeouts"] = list(case["observer_timeouts"]) + [0.2]
+            built = AC.build_audio(case)
+            if built is None:
+                continue
+            one(ctx, case, built[0], tmpdir)
+            if ctx.phase_over(0.7):
+                break
         # the stop arrives while the stream saver is far behind the reader (its thread is starved)
         rng = ctx.rng("lagging-saver")
         from ..sched import strategies as SS
@@ -498,7 +512,7 @@ def run_shard(ctx):
             ctx.case(stable_hash(["lag", case["stop"], res.sched.decisions]), True)
             ctx.count("scheduled_runs")
             check_run(ctx, case, built[0], res, tmpdir)
-            if ctx.out_of_time():
+            if ctx.phase_over(0.85):
                 break
         rng = ctx.rng("faults")
         for i in range(conf["fault_runs"]):
@@ -507,18 +521,6 @@ def run_shard(ctx):
             nb = len(case["v"])
             case["fault_at_read"] = rng.randint(1, max(1, nb))
             case["stop"] = {"after_reads": rng.randint(case["fault_at_read"], nb + 2), "extra_steps": rng.choice((0, 2, 5))}
-            if "rec" not in case["observers"]:
-                case["observers"] = list(case["observers"]) + ["rec"]
-                case["observer_timeouts"] = list(case["observer_timeouts"]) + [0.2]
-            built = AC.build_audio(case)
-            if built is None:
-                continue
-            one(ctx, case, built[0], tmpdir)
-            if ctx.out_of_time():
-                break
-        rng = ctx.rng("lines")
-        for i in range(conf["line_runs"]):
-            case = P.random_pipeline_case(rng, max_windows=14 if i % 4 == 0 else 8, want_stop=True, line_mode=(True, "instr", "all", "instr")[i % 4])
             if "rec" not in case["observers"]:
                 case["observers"] = list(case["observers"]) + ["rec"]
                 case["observer_timeouts"] = list(case["observer_timeouts"]) + [0.2]
